@@ -63,6 +63,7 @@ LEVEL_TEXT = (
 TARGETS = ["x86_64", "arm", "arm:thumb", "riscv", "riscv:rvc", "m68k", "mips", "msp430", "avr", "xtensa", "or1k", "microblaze"]
 PTR_BITS = {"x86_64": 64, "avr": 16, "msp430": 16}
 CHILD_TIMEOUT_S = 300
+CASE_FD1, CASE_FD2 = 3, 4
 
 
 def ptr_bits(target):
@@ -946,6 +947,12 @@ def explain_kf1(rec, info):
 
 def check_frame(rec, tail, max_witness, stats):
     """All oracles on one frame.  -> None | {"func", "path", "msg", "kind"}"""
+    slots = sorted(rec.slots)
+    for i in range(len(slots) - 1):
+        (o1, s1), (o2, s2) = slots[i], slots[i + 1]
+        if o1 + s1 > o2:
+            return {"func": rec.name, "path": [], "kind": "slots",
+                    "msg": "%s: spill slots %d(fp) (%d bytes) and %d(fp) (%d bytes) overlap" % (rec.name, o1, s1, o2, s2)}
     paths, succ = edge_cover(rec)
     dist = dist_to_exit(succ)
     max_steps = 8 * len(rec.post) + 400
@@ -1106,6 +1113,7 @@ def evaluate_case(compile_part, check_reader):
             "oddmoves": sum(1 for x in rec.pre if x.ismove and not x.plain_move),
             "branches": sum(1 for x in rec.pre if len(x.jumps) >= 2),
             "key": _h(rec.key_text()),
+            "post_key": _h("\n".join("%s|%s|%s" % (x.text, x.ureprs, x.dreprs) for x in rec.post)),
             "fixed_regs": sorted({r.name for x in rec.pre for r in x.uses + x.defs if r._num is not None})[:40],
         }
         try:
@@ -1186,12 +1194,15 @@ def _child(fd_in, fd_out):
 
     logging.disable(logging.WARNING)
     try:
-        part1 = json.loads(_read_msg(fd_in))
+        # The case comes in two regular files (fds 3 and 4), each read with ONE system call into ONE buffer: reading a
+        # pipe would split the data at timing-dependent places, and the pattern of temporary buffers is part of the heap
+        # history on which ppci's allocation depends.  Part 2 (function/path) is read only after compilation.
+        part1 = json.loads(os.pread(CASE_FD1, os.fstat(CASE_FD1).st_size, 0))
         got = {}
 
         def reader():
             if "v" not in got:
-                got["v"] = json.loads(_read_msg(fd_in))
+                got["v"] = json.loads(os.pread(CASE_FD2, os.fstat(CASE_FD2).st_size, 0))
             return got["v"]
 
         try:
@@ -1207,22 +1218,41 @@ def _child(fd_in, fd_out):
     _write_msg(fd_out, json.dumps(out).encode())
 
 
+def zygote_imports():
+    """Everything a child needs, imported in a fixed order.  Also run once as a separate warm-up process that fills the
+    private bytecode cache, so that the zygote proper always *loads* bytecode (compiling a module from source instead
+    leaves a different heap behind, and with it a different order of ppci's id()-hashed sets)."""
+    import io  # noqa
+    import ppci.api  # noqa
+    import ppci.codegen.codegen  # noqa
+    import ppci.codegen.registerallocator  # noqa
+    import ppci.irutils  # noqa
+    import ppci.binutils.debuginfo  # noqa
+    import ppci.binutils.outstream  # noqa
+    import ppci.utils.reporting  # noqa
+    import ppci.lang.c  # noqa
+    from ppci.api import get_arch
+    from .. import genir  # noqa
+
+    for t in TARGETS:
+        get_arch(t)
+
+
+def pycache_prefix():
+    """Private bytecode cache of the zygote: independent of whatever other processes leave in __pycache__ directories.
+    For the tree under test /repo it lives in /verif/.build; for a scratch copy (mutants, fix validation) next to it."""
+    if os.path.abspath(REPO) == "/repo":
+        return os.path.join(VERIF, ".build", "c06-pycache")
+    return os.path.join(os.path.dirname(os.path.abspath(REPO)), "c06-pycache")
+
+
 def zygote_main():
     """Entry of the fresh interpreter: import everything, warm the targets, then fork one child per request."""
     import logging
 
     logging.disable(logging.WARNING)
     fd_in, fd_out = 0, 1
-    import ppci.api  # noqa
-    import ppci.codegen.codegen  # noqa
-    import ppci.codegen.registerallocator  # noqa
-    import ppci.irutils  # noqa
-    import ppci.binutils.debuginfo  # noqa
-    from ppci.api import get_arch
-    from .. import genir  # noqa
-
-    for t in TARGETS:
-        get_arch(t)
+    zygote_imports()
     sys.stdout = open(os.devnull, "w")
     import gc
 
@@ -1267,10 +1297,30 @@ class Zygote:
             "HOME": "/nonexistent",
             "LANG": "C",
         }
-        cmd = [sys.executable, "-c", "import sys; from vf.props.c06 import zygote_main; zygote_main()"]
-        if not os.environ.get("VERIF_NO_SETARCH"):
-            cmd = ["setarch", os.uname().machine, "-R"] + cmd
-        self.proc = subprocess.Popen(cmd, stdin=subprocess.PIPE, stdout=subprocess.PIPE, env=env, cwd=VERIF, bufsize=0)
+        env["PYTHONPYCACHEPREFIX"] = pycache_prefix()
+        pre = [] if os.environ.get("VERIF_NO_SETARCH") else ["setarch", os.uname().machine, "-R"]
+        # 1. warm-up: fill / refresh the private bytecode cache (writes allowed here)
+        wenv = dict(env)
+        del wenv["PYTHONDONTWRITEBYTECODE"]
+        os.makedirs(env["PYTHONPYCACHEPREFIX"], exist_ok=True)
+        w = subprocess.run(pre + [sys.executable, "-c", "from vf.props.c06 import zygote_imports; zygote_imports()"],
+                           env=wenv, cwd=VERIF, stdin=subprocess.DEVNULL, stdout=subprocess.DEVNULL, stderr=subprocess.PIPE)
+        if w.returncode != 0:
+            raise HarnessError("C06 zygote warm-up failed: %s" % w.stderr.decode(errors="replace")[-2000:])
+        # 2. the zygote proper: never writes, always finds complete bytecode
+        cmd = pre + [sys.executable, "-c", "import sys; from vf.props.c06 import zygote_main; zygote_main()"]
+        import tempfile
+
+        self.files = [tempfile.TemporaryFile(), tempfile.TemporaryFile()]
+
+        def place():  # in the forked child, before exec: the two case files become fds 3 and 4
+            a, b = self.files[0].fileno(), self.files[1].fileno()
+            a2, b2 = os.dup(a), os.dup(b)  # move out of the way first
+            os.dup2(a2, CASE_FD1, inheritable=True)
+            os.dup2(b2, CASE_FD2, inheritable=True)
+
+        self.proc = subprocess.Popen(cmd, stdin=subprocess.PIPE, stdout=subprocess.PIPE, env=env, cwd=VERIF, bufsize=0,
+                                     preexec_fn=place, close_fds=False)
         try:
             hello = _read_msg(self.proc.stdout.fileno())
         except EOFError:
@@ -1290,9 +1340,12 @@ class Zygote:
         part2 = {k: case[k] for k in ("func", "path", "tail", "max_witness", "dump") if k in case}
         fd = self.proc.stdin.fileno()
         try:
+            for f, part in zip(self.files, (part1, part2)):
+                f.seek(0)
+                f.truncate()
+                f.write(json.dumps(part, sort_keys=True).encode())
+                f.flush()
             os.write(fd, b"g")
-            _write_msg(fd, json.dumps(part1, sort_keys=True).encode())
-            _write_msg(fd, json.dumps(part2, sort_keys=True).encode())
             out = json.loads(_read_msg(self.proc.stdout.fileno()))
         except (EOFError, OSError) as e:
             self.close()
@@ -1317,6 +1370,11 @@ class Zygote:
             except Exception:
                 self.proc.kill()
             self.proc = None
+            for f in getattr(self, "files", ()):
+                try:
+                    f.close()
+                except Exception:
+                    pass
 
 
 _ZYG = None
